@@ -45,7 +45,7 @@ CHECKS = {
         "technique": "contract harnesses on macro expansions (Kani, per catalogue instance) + Verus requires/ensures on the extracted mismatch-collection functions",
     },
     "C17": {
-        "level_text": "Proof per instantiation over all leaf values and variants (Option, Result, Poll, tuples of arity 2 and 4, nesting depth 2; Owning/Lending/StaticRef leaves); Vec containers bounded in the element count (reported as bounded). The macro's choice of output kind is checked per catalogue instance only (5 composite shapes x elided/named receiver lifetime, on the real #[unimock] expansion); beyond the catalogue it is not covered.",
+        "level_text": "Proof per instantiation over all leaf values and variants (Option, Result, Poll, tuples of arity 2 and 4, nesting depth 2; Owning/Lending/StaticRef leaves); Vec containers bounded in the element count (reported as bounded). The macro's choice of output kind is checked per catalogue instance only (9 composite shapes x elided/named receiver lifetime, on the real #[unimock] expansion); beyond the catalogue it is not covered.",
         "design_ref": "DESIGN.md §4 C17",
         "level_note": "Trusted: Kani/CBMC; parametricity in the leaf type; catalogue of instantiations.",
         "technique": "function contracts: Kani full-domain contract harnesses per container x leaf-kind instantiation",
